@@ -9,7 +9,90 @@ RULE = ("AnkoContainers gives Go's rules for slice headers over backing arrays (
         "and struct fields. Seeded random histories of container statements (persistent environment, 7 variables) are executed on the real interpreter; after every "
         "statement the result and the full projection (contents, len, cap, storage sharing with offsets via data pointers, map contents, fields) are recorded and TLC "
         "(Trace_AnkoContainers) accepts the history iff every step is allowed by the specification, the capacity of a growing append being taken from the log. "
-        "distinct_nontrivial = judged statements (steps after a point the statement leaves open are skipped, not judged).")
+        "distinct_nontrivial = judged statements (steps after a point the statement leaves open are skipped, not judged). "
+        "spec->code: MC_AnkoContainers explores, per family (slices, maps, strings, typed containers and struct fields), every statement of a finite alphabet in every "
+        "reachable abstract state up to a depth bound (VIEW = what a script can observe), checks the design statements of C10 as invariants / action properties "
+        "(WindowOK, TypedHolds, ErrUnchanged, ReadsPure, StoreExact, SliceShares, AliasIsReference, GrowthLocal, StringsAreValues, MapAliasing; two wrong designs must be "
+        "refuted) and emits one history per transition; every emitted history is replayed on the real interpreter and its last step judged by the same trace specification.")
+
+FAMILIES = ["slice", "map", "str", "typed"]
+DEPTH = {"quick": {"slice": 4, "map": 5, "str": 5, "typed": 5}, "thorough": {"slice": 6, "map": 6, "str": 6, "typed": 6}}
+
+
+def cover(ctx, binp, validate_in):
+    """spec -> code: transition cover of the bounded container machine, replayed on the real interpreter."""
+    depth = DEPTH["quick" if ctx.quick() else "thorough"]
+    def mc(fam):
+        cfg = os.path.join(ctx.work, "mcc_%s.cfg" % fam)
+        base = open(os.path.join(vlib.VERIF, "spec", "MC_AnkoContainers_%s.cfg" % fam)).read()
+        open(cfg, "w").write(base.replace("Depth = 4", "Depth = %d" % depth[fam]).replace("Emit = FALSE", "Emit = TRUE"))
+        ops, hists = [], []
+        r = vlib.run_tlc(ctx, "MC_AnkoContainers", os.path.basename(cfg), workers=2, timeout=3000, line_cb=lambda v: ops.extend(v.get("ops", [])), cfg_dir=ctx.work)
+        with open(os.path.join(r.dir, "tlc.out"), errors="replace") as fi:
+            for line in fi:
+                if line.startswith('<<"H", <<'):
+                    hists.append([int(x) for x in line[9:line.index(">>")].split(",")])
+        vlib.tlc_ok(ctx, r, "MC_AnkoContainers[%s]" % fam)
+        if len(hists) != r.generated - 1:
+            raise Broken("MC_AnkoContainers[%s]: emitted histories (%d) != TLC transitions (%d)" % (fam, len(hists), r.generated - 1))
+        return fam, ops, hists, r
+    with concurrent.futures.ThreadPoolExecutor(max_workers=4) as ex:
+        res = list(ex.map(mc, FAMILIES))
+    shards = 8
+    files = [open(os.path.join(ctx.work, "cov_ops_%d.ndjson" % k), "w") for k in range(shards)]
+    n = 0
+    byop = {}
+    for fam, ops, hists, r in res:
+        ctx.cov["states"] += r.distinct
+        ctx.cov["transitions"] += r.generated
+        for h in hists:
+            seq = [ops[i - 1] for i in h]
+            # the capacity is the runtime's business: the harness logs the real one
+            files[n % shards].write(json.dumps(seq) + "\n")
+            n += 1
+            byop[seq[-1]["op"]] = byop.get(seq[-1]["op"], 0) + 1
+    for f in files:
+        f.close()
+    ctx.cov["transition_cover"] = {"histories": n, "by_last_statement": byop, "depth": depth}
+    def one(k):
+        ops = os.path.join(ctx.work, "cov_ops_%d.ndjson" % k)
+        rec = os.path.join(ctx.work, "cov_%d.ndjson" % k)
+        vlib.run_cmd(ctx, [binp, "opslast", ops, rec])
+        lines = open(rec).read().splitlines()
+        rejected = []
+        start = 0
+        while start < len(lines):
+            tmp = rec + ".part"
+            open(tmp, "w").write("\n".join(lines[start:]) + "\n")
+            reached, total, skipped, r = validate_in(ctx, tmp)
+            if reached == total + 1:
+                break
+            bad = start + reached - 1
+            tstart = max(i for i in range(bad + 1) if lines[i].startswith('{"ev":"reset"'))
+            rejected.append(lines[tstart:bad + 1])
+            nxt = [i for i in range(bad + 1, len(lines)) if lines[i].startswith('{"ev":"reset"')]
+            if not nxt or len(rejected) >= 5:
+                break
+            start = nxt[0]
+        return rejected, len(lines)
+    with concurrent.futures.ThreadPoolExecutor(max_workers=shards) as ex:
+        out = list(ex.map(one, range(shards)))
+    for rejected, nlines in out:
+        ctx.cov["evaluations"] += nlines
+        for tr in rejected:
+            last = json.loads(tr[-1])
+            hist = [json.loads(x).get("src") for x in tr[1:]]
+            vlib.violation(ctx, "transition-cover history rejected by AnkoContainers at its last statement: %s -> %s\n%s" % (last["src"], json.dumps(last["res"]), "\n".join(hist[-12:])),
+                           {"kind": "cont", "ops": [json.loads(x)["o"] for x in tr[1:]], "history": hist, "rejected": last})
+    ctx.cov["traces_validated_against_impl"] += n
+    ctx.cov["distinct_nontrivial"] += n
+    # negative controls: wrong designs must be refuted by the properties
+    for mut, fam, expect in (("SliceCopies", "slice", "SliceShares"), ("ErrWrites", "typed", "ErrUnchanged")):
+        cfg = os.path.join(ctx.work, "mcc_neg_%s.cfg" % mut)
+        base = open(os.path.join(vlib.VERIF, "spec", "MC_AnkoContainers_%s.cfg" % fam)).read()
+        open(cfg, "w").write(base.replace('Mutant = "none"', 'Mutant = "%s"' % mut))
+        r = vlib.run_tlc(ctx, "MC_AnkoContainers", os.path.basename(cfg), workers=2, timeout=600, cfg_dir=ctx.work, want_lines=False)
+        vlib.tlc_must_fail(ctx, r, "MC_AnkoContainers[%s]" % mut, expect)
 
 
 def validate(ctx, path, timeout=3000):
@@ -93,6 +176,7 @@ def run(ctx):
             vlib.violation(ctx, "container history rejected by AnkoContainers at its last statement: %s -> %s\n%s" % (last["src"], json.dumps(last["res"]), "\n".join(hist[-12:])),
                            {"kind": "cont", "ops": [json.loads(x)["o"] for x in tr[1:]], "history": hist, "rejected": last})
     ctx.cov["recorded_statements"] = total_lines
+    cover(ctx, binp, validate_in)
     lines = open(files[0]).read().splitlines()
     tr = [json.loads(x) for x in lines[1:9]]
     ctx.sample({"history": [t.get("src") for t in tr if t["ev"] == "op"], "last_projection": {k: v for k, v in tr[-1]["post"].items() if v["t"] != "nil"}})
